@@ -102,6 +102,9 @@ def real_jobs(rng, tier, drv, sc, ev, first_input):
             scheds.append(["M"] + ["R%d" % k for k in [7, 0, 13, 1, 0, 31, 64, 127]] + ["R%d" % (dl + 1)])
             scheds.append(["R%d" % (n // 2), "M", "R0", "R%d" % (n + 5)])
             scheds.append(["R%d" % (n + 100), "R5", "M", "R0"])
+            # W: the monitor is attached from inside a progress callback (for the handler that is logged an attachment like any other)
+            scheds.append(["W"] + ["R%d" % k for k in [64, 64, 1000]] + ["R%d" % (dl + 1)])
+            scheds.append(["R%d" % (n // 2 + 1), "R64", "W", "R64", "R%d" % (n + 5)])
             if tier == "thorough":
                 scheds.append(["R%d" % rng.choice([1, 2, 3, 5, 17, 100, 1000, 4096, 5000]) for _ in range(40)] + ["M", "R%d" % (dl + 1)])
                 scheds.append(["R0", "R0", "M", "R%d" % max(n - 1, 0), "R1", "R1", "R1"])
@@ -109,7 +112,7 @@ def real_jobs(rng, tier, drv, sc, ev, first_input):
                 o = []
                 for x in sch:
                     o.append(x)
-                    if x != "M" and rng.random() < 0.3:
+                    if x not in ("M", "W") and rng.random() < 0.3:
                         o += ["L", "C"]
                 o += ["L", "C"]
                 jobs.append("real %d 0 %d %s %s %s" % (iid, dl, name, path, ",".join(o)))
